@@ -196,7 +196,7 @@ func c11One(r *hx.Run, rnd *rand.Rand, s int, pattern string) {
 }
 
 func c11(r *hx.Run) {
-	r.Rule = "every size S in the list x access pattern {uniform,zipf,scan,loop of S+1}, >=50*S dispatcher operations (get-or-create, 1/23 removals) over 4*S keys; resident count read under each shard lock after every op (S<=64) or every 64 ops; each eviction event checked against a replayed per-shard recency list; caches configured twice with different sizes; end-to-end: fetches still in flight while their shard is filled by other keys, populations of 3S+20 uncacheable keys (at most S may still answer hitForPass when asked again); a cache renamed away and configured again under its old name through reloads applied step by step with client requests between the cache step and the server step; Non-trivial = at least one eviction happened; distinct = (size,pattern)."
+	r.Rule = "every size S in the list x access pattern {uniform,zipf,scan,loop of S+1}, >=50*S dispatcher operations (get-or-create, 1/23 removals) over 4*S keys; resident count read under each shard lock after every op (S<=64) or every 64 ops; each eviction event checked against a replayed per-shard recency list; caches configured twice with different sizes; end-to-end: fetches still in flight while their shard is filled by other keys, populations of 3S+20 uncacheable keys (at most S may still answer hitForPass when asked again) and of 3S+20 cacheable GET and HEAD keys side by side (at most S of them may still answer hit); a cache renamed away and configured again under its old name through reloads applied step by step with client requests between the cache step and the server step; Non-trivial = at least one eviction happened; distinct = (size,pattern)."
 	r.Assume = []string{"residents are counted through the tag-guarded VerifStats hook (lru.Cache.Len under the shard lock)", "dispatcher-level: exported NewDispatcher/GetHTTPCache/RemoveHTTPCache are what the cache middleware calls"}
 	rnd := rand.New(rand.NewSource(r.Seed))
 	sizes := c11Sizes(r)
@@ -432,6 +432,31 @@ func c11EndToEnd(r *hx.Run, rnd *rand.Rand) {
 			if stillHit > in.size {
 				r.Violate("resident_exceeds_size", map[string]string{"size_class": "unusable_store", "size": fmt.Sprint(in.size)},
 					fmt.Sprintf("after %d distinct cacheable keys a cache of size %d whose store cannot be opened still answers %d of them as hit", nc, in.size, stillHit), nil, map[string]interface{}{"size": in.size})
+			}
+		}
+		{
+			// GET and HEAD keys side by side: the size bounds all keys of the cache together, whatever their method.
+			// Asked once each from the newest to the oldest, every hit is a key that was resident when the pass began.
+			nm := 3*in.size + 20
+			meth := func(k int) string { return []string{"GET", "HEAD"}[k%2] }
+			for k := 0; k < nm; k++ {
+				w.Cl.Do(hx.Req{Method: meth(k), Addr: in.addr, Host: "h.example", URI: fmt.Sprintf("/e2e/%s/mixed-methods/%d", in.cache, k/2)})
+			}
+			stillHit, headHit := 0, 0
+			for k := nm - 1; k >= 0; k-- {
+				if res := w.Cl.Do(hx.Req{Method: meth(k), Addr: in.addr, Host: "h.example", URI: fmt.Sprintf("/e2e/%s/mixed-methods/%d", in.cache, k/2)}); res.Label == "hit" {
+					stillHit++
+					if k%2 == 1 {
+						headHit++
+					}
+				}
+			}
+			r.Add("e2e_mixed_method_populations", 1)
+			r.Add("e2e_mixed_method_head_keys_found_held", int64(headHit))
+			r.Max("e2e_max_mixed_method_keys_found_held", int64(stillHit))
+			if stillHit > in.size {
+				r.Violate("resident_exceeds_size", map[string]string{"size_class": "get_and_head_keys", "size": fmt.Sprint(in.size)},
+					fmt.Sprintf("after %d distinct GET and HEAD keys a cache of size %d still answers %d of them as hit", nm, in.size, stillHit), nil, map[string]interface{}{"size": in.size})
 			}
 		}
 		r.Add("e2e_uncacheable_key_populations", 1)
